@@ -28,7 +28,13 @@ from vlib.ring import DenotationError
 
 PROP = "C15"
 
+import numpy as np  # noqa: E402
+
 MD = {
+    # array-valued metadata (custom quadrature rules): same bytes / different shape, same shape / different values
+    "pts22": {"quadrature_rule": "custom", "quadrature_points": np.array([[0.25, 0.25], [0.5, 0.5]])},
+    "pts41": {"quadrature_rule": "custom", "quadrature_points": np.array([[0.25, 0.25], [0.5, 0.5]]).reshape(4, 1)},
+    "pts22b": {"quadrature_rule": "custom", "quadrature_points": np.array([[0.25, 0.25], [0.5, 0.25]])},
     "none": {}, "deg2": {"quadrature_degree": 2}, "deg3": {"quadrature_degree": 3},
     "deg2rule": {"quadrature_degree": 2, "quadrature_rule": "default"}, "deg2str": {"quadrature_degree": "2"},
     "nested1": {"opts": {"a": 1}}, "nested2": {"opts": {"a": 2}}, "float1": {"scale": 1.0}, "int1": {"scale": 1},
@@ -48,6 +54,8 @@ PATTERNS = {
     "metadata_nested": [(1, "nested1", "dx"), (1, "nested2", "dx")],
     "metadata_float_int": [(1, "float1", "dx"), (1, "int1", "dx")],
     "metadata_int_vs_str": [(1, "deg2", "dx"), (1, "deg2str", "dx")],
+    "metadata_array_shape": [(1, "pts22", "dx"), (1, "pts41", "dx"), (1, "pts22", "dx")],
+    "metadata_array_values": [(1, "pts22", "dx"), (1, "pts22b", "dx"), ("everywhere", "pts22b", "dx")],
     "types": [(1, "none", "dx"), (1, "none", "ds"), (1, "none", "dS"), ("everywhere", "none", "ds")],
     "same_integrand_ids": [(1, "none", "dx", "same"), (2, "none", "dx", "same"), (3, "none", "dx")],
     "same_integrand_metadata": [(1, "deg2", "dx", "same"), (2, "deg2", "dx", "same"), (2, "deg3", "dx", "same")],
@@ -229,7 +237,7 @@ def main():
                    "accumulate_integrands_with_same_metadata,build_integral_data,attach/strip_coordinate_derivatives}",
                    "ufl.utils.sorting.canonicalize_metadata"],
         bounds={"patterns": sorted(PATTERNS), "append option": "both", "metadata values": sorted(MD),
-                "outside": "array-valued metadata (numpy printing is a C boundary: no symbolic model), MeshSequence / "
+                "outside": "array-valued metadata beyond the three concrete 2x2 / 4x1 arrays of the metadata_array_* patterns (numpy printing is a C boundary: no symbolic model), MeshSequence / "
                            "extra domain integral types, subdomain_data"},
         assumptions=["integrands are distinct symbolic scalars c_k * v (the grouping never looks inside them except "
                      "for canonical sorting and equality)", "metadata classes = Python equality of the dicts"],
